@@ -556,3 +556,25 @@ int sizekind_good(const ctl_chunk_t* c) {
     long widest = c->total_stored > c->total_plain ? c->total_stored : c->total_plain;
     return consumed < c->total_stored && widest > 0;
 }
+size_t lenext_closed_bad(uint8_t* op, size_t rem) {
+    uint8_t* s = op; const size_t full = rem / 255;
+    memset(op, 255, full); op += full;
+    *op++ = (uint8_t)(rem % 256);               /* 255 stays 255: reads back as a continuing length */
+    return (size_t)(op - s);
+}
+size_t lenext_closed_good(uint8_t* op, size_t rem) {
+    uint8_t* s = op; const size_t full = rem / 255;
+    memset(op, 255, full); op += full;
+    *op++ = (uint8_t)(rem % 255);
+    return (size_t)(op - s);
+}
+size_t lenext_read_break_good(const uint8_t* ip) {
+    size_t len = 15;
+    for (;;) { uint8_t s = *ip++; len += s; if (s != 255) break; }
+    return len;
+}
+size_t lenext_read_break_bad(const uint8_t* ip) {
+    size_t len = 15;
+    for (;;) { uint8_t s = *ip++; len += s; if (s < 255) break; if (len > 100000) break; }
+    return len;
+}
